@@ -56,6 +56,7 @@ var g2lStd = map[string]stdFn{
 	"strings.Split":          {"split", false},
 	"strings.IndexFunc":      {"indexFunc", false},
 	"strings.Join":           {"join", false},
+	"strings.Fields":         {"fields", false},
 	"strings.ToLower":        {"toLowerASCIIorUnicode", false},
 	"utf8.RuneError":         {"(65533 : Int)", false},
 	"utf8.ValidString":       {"validUtf8", false},
@@ -84,6 +85,19 @@ func (f *g2lFn) calleeName(e *ast.CallExpr) (pkg, name string, obj types.Object)
 func (f *g2lFn) args(b *binds, e *ast.CallExpr) []string {
 	out := []string{}
 	sig, _ := f.typeOf(e.Fun).Underlying().(*types.Signature)
+	if sig != nil && sig.Variadic() && !e.Ellipsis.IsValid() && f.calleeGoName(e) != "" {
+		// f(a, b, c) for a translated f(a T, rest ...U): the trailing arguments are the slice `rest`
+		n := sig.Params().Len() - 1
+		for i := 0; i < n && i < len(e.Args); i++ {
+			out = append(out, f.exprAs(b, e.Args[i], sig.Params().At(i).Type()))
+		}
+		st := sig.Params().At(n).Type().(*types.Slice)
+		parts := []string{}
+		for i := n; i < len(e.Args); i++ {
+			parts = append(parts, f.exprAs(b, e.Args[i], st.Elem()))
+		}
+		return append(out, "(["+strings.Join(parts, ", ")+"] : "+f.leanType(st, e)+")")
+	}
 	for i, a := range e.Args {
 		var want types.Type
 		if sig != nil && i < sig.Params().Len() && !(sig.Variadic() && i >= sig.Params().Len()-1) {
@@ -278,6 +292,20 @@ func (f *g2lFn) call(b *binds, e *ast.CallExpr) string {
 		}
 	}
 	if id, ok := e.Fun.(*ast.Ident); ok {
+		if v, ok := f.p.info.Uses[id].(*types.Var); ok && f.isWorldFnVar(v) {
+			// less(a, b) where less holds one of the package's world functions
+			f.needWorld(e)
+			t := f.bindM(b, "("+f.varName(v)+" "+strings.Join(append(f.args(b, e), "world"), " ")+")")
+			r := f.fresh("wr")
+			b.add(fmt.Sprintf("let (%s, world) := %s", r, t))
+			b.noteRebound("world")
+			return r
+		}
+	}
+	if srcT := strings.Join(strings.Fields(show(e.Fun)), ""); (srcT == "sort.SliceStable" || srcT == "sort.Slice") && len(e.Args) == 2 && f.worldVar != nil {
+		return f.sortSliceCall(b, e)
+	}
+	if id, ok := e.Fun.(*ast.Ident); ok {
 		if v, ok := f.p.info.Uses[id].(*types.Var); ok {
 			if _, isSig := v.Type().Underlying().(*types.Signature); isSig {
 				if _, isClosure := f.closures[v]; !isClosure {
@@ -449,7 +477,12 @@ func (f *g2lFn) call(b *binds, e *ast.CallExpr) string {
 					args[callee.inoutIdx] = tmp
 					r := f.callFn(b, callee, args, e)
 					lines := []string{}
-					f.assignOne(&lines, e.Args[callee.inoutIdx], tmp, f.typeOf(e.Args[callee.inoutIdx]))
+					target := e.Args[callee.inoutIdx]
+					if ue, ok := target.(*ast.UnaryExpr); ok && ue.Op == token.AND {
+						// addReplace(f.Syntax, &f.Replace, …): the updated slice goes back into the place whose address was passed
+						target = ue.X
+					}
+					f.assignOne(&lines, target, tmp, f.typeOf(target))
 					for _, l := range lines {
 						b.add(l)
 					}
@@ -849,6 +882,17 @@ func (f *g2lFn) stmts(list []ast.Stmt, k kont) []string {
 			return []string{fmt.Sprintf("let %s ← %s", r, f.paren(code)), "pure (Ctl.ret " + r + ")"}
 		}
 		if s.Label != nil {
+			// break / continue of a labelled loop from inside a switch of its body (not from an inner loop)
+			lt, ok := f.loopLabels[s.Label.Name]
+			if !ok || lt.loop != f.inLoop {
+				f.bad(s, "labelled %s (only to the innermost enclosing loop)", s.Tok)
+			}
+			if s.Tok == token.BREAK {
+				return lt.brk.onBreak()
+			}
+			if s.Tok == token.CONTINUE && lt.brk.onContinue != nil {
+				return lt.brk.onContinue()
+			}
 			f.bad(s, "labelled %s", s.Tok)
 		}
 		if f.brk == nil {
@@ -872,6 +916,9 @@ func (f *g2lFn) stmts(list []ast.Stmt, k kont) []string {
 			}
 		}
 		if c, ok := s.X.(*ast.CallExpr); ok {
+			if id, ok := c.Fun.(*ast.Ident); ok && f.u.inlineFns[id.Name] {
+				return f.inlineCall(c, id.Name, rest)
+			}
 			if f.isPanicCall(c) {
 				f.pure = false
 				return []string{"throw Err.panic"}
@@ -912,6 +959,10 @@ func (f *g2lFn) stmts(list []ast.Stmt, k kont) []string {
 	case *ast.EmptyStmt:
 		return rest()
 	case *ast.LabeledStmt:
+		switch s.Stmt.(type) {
+		case *ast.ForStmt, *ast.RangeStmt:
+			f.pendingLabel = s.Label.Name
+		}
 		return f.stmts(append([]ast.Stmt{s.Stmt}, list[1:]...), k)
 	case *ast.GoStmt:
 		// `go func(params){…}(args)`: the goroutine is run to completion at the point where it is started (the
@@ -1005,6 +1056,8 @@ func (f *g2lFn) blockType() string {
 func (f *g2lFn) assignedOuter(nodes []ast.Node, before token.Pos) []*types.Var {
 	seen := map[*types.Var]bool{}
 	out := []*types.Var{}
+	depth := 0
+	var addRef func(e ast.Expr)
 	add := func(e ast.Expr) {
 		for {
 			switch x := e.(type) {
@@ -1037,11 +1090,23 @@ func (f *g2lFn) assignedOuter(nodes []ast.Node, before token.Pos) []*types.Var {
 					e = x.X
 					continue
 				}
+			case *ast.StarExpr:
+				e = x.X
+				continue
 			}
 			break
 		}
 		id, ok := e.(*ast.Ident)
 		if !ok || id.Name == "_" {
+			return
+		}
+		if al, ok := f.aliases[f.p.info.Uses[id]]; ok && al != nil && al != ast.Expr(id) {
+			// an assignment through an alias parameter is an assignment to the place it stands for
+			if depth < 8 {
+				depth++
+				addRef(al)
+				depth--
+			}
 			return
 		}
 		var o types.Object = f.p.info.Uses[id]
@@ -1066,6 +1131,7 @@ func (f *g2lFn) assignedOuter(nodes []ast.Node, before token.Pos) []*types.Var {
 		seen[v] = true
 		out = append(out, v)
 	}
+	addRef = add
 	for _, n := range nodes {
 		if n == nil {
 			continue
@@ -1173,6 +1239,12 @@ func (f *g2lFn) assignedOuter(nodes []ast.Node, before token.Pos) []*types.Var {
 					if callee, ok := g2l.fns[f.u.pkgDir+"."+id.Name]; ok && callee.inoutName != "" && callee.inoutIdx < len(n.Args) {
 						add(n.Args[callee.inoutIdx])
 					}
+				}
+				if id, ok := n.Fun.(*ast.Ident); ok && id.Name == "delete" && len(n.Args) == 2 {
+					add(n.Args[0])
+				}
+				if srcS := strings.Join(strings.Fields(show(n.Fun)), ""); (srcS == "sort.SliceStable" || srcS == "sort.Slice") && len(n.Args) == 2 {
+					add(n.Args[0])
 				}
 				// copy(dst[...], src) assigns to dst
 				if id, ok := n.Fun.(*ast.Ident); ok && id.Name == "copy" && len(n.Args) == 2 {
@@ -1336,6 +1408,22 @@ func isSimpleTerm(s string) bool {
 // simple statements
 
 func (f *g2lFn) assignOne(lines *[]string, lhs ast.Expr, term string, lt types.Type) {
+	if se, ok := lhs.(*ast.SelectorExpr); ok && len(f.aliases) > 0 {
+		if id, ok := se.X.(*ast.Ident); ok {
+			if al, ok := f.aliases[f.p.info.Uses[id]]; ok {
+				// the alias stands for X[i]: assign to X[i].field
+				sel2 := &ast.SelectorExpr{X: al, Sel: se.Sel}
+				if s0, ok := f.p.info.Selections[se]; ok {
+					f.p.info.Selections[sel2] = s0
+				}
+				if tv, ok := f.p.info.Types[se]; ok {
+					f.p.info.Types[sel2] = tv
+				}
+				f.assignOne(lines, sel2, term, lt)
+				return
+			}
+		}
+	}
 	switch l := lhs.(type) {
 	case *ast.Ident:
 		if l.Name == "_" {
@@ -1485,8 +1573,24 @@ func (f *g2lFn) assignOne(lines *[]string, lhs ast.Expr, term string, lt types.T
 		}
 		*lines = append(*lines, fmt.Sprintf("let %s ← %s %s %s %s", f.name(base), op, f.name(base), i, term))
 	case *ast.StarExpr:
+		if id, ok := l.X.(*ast.Ident); ok {
+			if al, ok := f.aliases[f.p.info.Uses[id]]; ok && al != nil {
+				// *param = v where the (inlined) parameter stands for the caller's place
+				f.assignOne(lines, al, term, lt)
+				return
+			}
+		}
+		// *p = v where p points to a heap object: replace the object
+		if len(f.u.heapTypes) > 0 {
+			if f.storeHeap(lines, l.X, func(cur string) string { return term }) {
+				return
+			}
+		}
 		// *p = v where p is a pointer parameter (an in-out parameter of the function)
 		if id, ok := l.X.(*ast.Ident); ok {
+			if f.inoutName != f.name(id) && !f.inClosure {
+				f.bad(lhs, "store through the pointer parameter %s of a function that is not configured in-out for it (the caller would not see it)", id.Name)
+			}
 			*lines = append(*lines, fmt.Sprintf("let %s := %s", f.name(id), term))
 			return
 		}
@@ -1500,6 +1604,18 @@ func (f *g2lFn) simple(s ast.Stmt) []string {
 	lines := []string{}
 	switch s := s.(type) {
 	case *ast.AssignStmt:
+		if s.Tok == token.DEFINE && len(s.Lhs) == 1 && len(s.Rhs) == 1 {
+			if ue, ok := s.Rhs[0].(*ast.UnaryExpr); ok && ue.Op == token.AND {
+				if ix, ok := ue.X.(*ast.IndexExpr); ok {
+					// com := &line.Suffix[0]
+					if f.aliases == nil {
+						f.aliases = map[types.Object]ast.Expr{}
+					}
+					f.aliases[f.p.info.Defs[s.Lhs[0].(*ast.Ident)]] = ix
+					return lines
+				}
+			}
+		}
 		if len(s.Lhs) == 1 && len(s.Rhs) == 1 && f.isWorldObj(f.typeOf(s.Rhs[0])) {
 			// c := r.c — another name for the world object; c.tileReader.c = c — a link between world objects
 			return lines
@@ -1727,6 +1843,16 @@ func (f *g2lFn) exprStmtCall(c *ast.CallExpr) ([]string, bool) {
 			}
 		}
 	}
+	if id, ok := c.Fun.(*ast.Ident); ok && id.Name == "delete" && len(c.Args) == 2 {
+		if _, isB := f.p.info.Uses[id].(*types.Builtin); isB {
+			var db binds
+			m := f.expr(&db, c.Args[0])
+			k := f.expr(&db, c.Args[1])
+			lines := append([]string{}, db.lines...)
+			f.assignOne(&lines, c.Args[0], fmt.Sprintf("(mapDelete %s %s)", m, k), f.typeOf(c.Args[0]))
+			return lines, true
+		}
+	}
 	var b binds
 	if id, ok := c.Fun.(*ast.Ident); ok && id.Name == "copy" && len(c.Args) == 2 {
 		se, ok := c.Args[0].(*ast.SliceExpr)
@@ -1735,7 +1861,27 @@ func (f *g2lFn) exprStmtCall(c *ast.CallExpr) ([]string, bool) {
 		}
 		base, ok := se.X.(*ast.Ident)
 		if !ok {
-			return nil, false
+			// copy(x.Stmt[i+2:], x.Stmt[i+1:]): any assignable destination; the source value is taken first
+			if se.High != nil {
+				return nil, false
+			}
+			src := f.expr(&b, c.Args[1])
+			st := f.fresh("cs")
+			b.add(fmt.Sprintf("let %s := %s", st, src))
+			dst := f.expr(&b, se.X)
+			lo := "(0 : Int)"
+			if se.Low != nil {
+				lo = f.expr(&b, se.Low)
+			}
+			f.pure = false
+			op := "copyAtL"
+			if isByteSlice(f.typeOf(se.X)) {
+				op = "copyAt"
+			}
+			t := f.bindM(&b, fmt.Sprintf("%s %s %s %s", op, dst, lo, st))
+			lines := append([]string{}, b.lines...)
+			f.assignOne(&lines, se.X, t, f.typeOf(se.X))
+			return lines, true
 		}
 		src := f.expr(&b, c.Args[1])
 		bt := f.typeOf(se.X)
@@ -1939,6 +2085,26 @@ func (f *g2lFn) defineClosureAs(nameStr string, key types.Object, lit *ast.FuncL
 	}
 	f.endK = end
 	body := f.stmts(lit.Body.List, end)
+	if f.worldVar != nil && containsWord(strings.Join(body, "\n"), "world") {
+		// a closure that only READS the world (heap dereferences): the world is one more captured value
+		has := false
+		for _, m := range cl.modified {
+			if m == "world" {
+				has = true
+			}
+		}
+		for _, m := range cl.captured {
+			if m == "world" {
+				has = true
+			}
+		}
+		if !has {
+			cl.captured = append(cl.captured, "world")
+			// captured parameters come first: insert before the closure's own parameters
+			nc := len(capturedV)
+			params = append(params[:nc], append([]string{fmt.Sprintf("(world : %s)", f.worldType)}, params[nc:]...)...)
+		}
+	}
 	f.results, f.named, f.retType, f.inLoop, f.brk, f.deferBody = sResults, sNamed, sRet, sLoop, sBrk, sDefer
 	f.effType, f.inoutName, f.closOuts, f.inClosure, f.endK = sEff, sInout, sOuts, sIn, sEnd
 	def := &strings.Builder{}
@@ -2245,4 +2411,202 @@ func (f *g2lFn) cacheCall(b *binds, e *ast.CallExpr, field string) string {
 	}
 	f.pure, f.fuel = false, true
 	return r
+}
+
+// inlineCall: a statement call of a package function configured in inlineFns is compiled in place: a pointer parameter
+// whose argument is `&place` stands for that place (reads, writes and nil tests go to it), one whose argument is nil is the
+// nil pointer (the branches guarded by `p != nil` are dead), other parameters are bound to their arguments.  Used for
+// functions that update several of the caller's slices through pointers (removeDups).
+func (f *g2lFn) inlineCall(c *ast.CallExpr, name string, rest kont) []string {
+	fd := f.p.decls[name]
+	if fd == nil || fd.Recv != nil || containsReturnValue(fd.Body) {
+		f.bad(c, "inline call of %s (needs a plain function without return statements)", name)
+	}
+	if f.aliases == nil {
+		f.aliases = map[types.Object]ast.Expr{}
+	}
+	if f.nilAlias == nil {
+		f.nilAlias = map[types.Object]bool{}
+	}
+	lines := []string{}
+	i := 0
+	for _, fld := range fd.Type.Params.List {
+		for _, n := range fld.Names {
+			if i >= len(c.Args) {
+				f.bad(c, "inline call arity")
+			}
+			arg := c.Args[i]
+			i++
+			obj := f.p.info.Defs[n]
+			pt, isPtr := obj.Type().(*types.Pointer)
+			_, heapPtr := f.heapField(obj.Type())
+			if isPtr && !heapPtr && pt != nil {
+				if id, ok := arg.(*ast.Ident); ok && id.Name == "nil" {
+					f.nilAlias[obj] = true
+					continue
+				}
+				if ue, ok := arg.(*ast.UnaryExpr); ok && ue.Op == token.AND {
+					f.aliases[obj] = ue.X
+					continue
+				}
+				f.bad(c, "inline call of %s: pointer argument %s is neither &place nor nil", name, show(arg))
+			}
+			var b binds
+			v := f.exprAs(&b, arg, obj.Type())
+			lines = append(lines, b.lines...)
+			lines = append(lines, fmt.Sprintf("let %s := %s", f.name(n), v))
+		}
+	}
+	return append(lines, f.stmts(fd.Body.List, rest)...)
+}
+
+// isWorldFnVar: a local variable of function type that is assigned (somewhere in this function) one of the unit's world functions
+func (f *g2lFn) isWorldFnVar(v *types.Var) bool {
+	if f.worldVar == nil {
+		return false
+	}
+	if _, ok := v.Type().Underlying().(*types.Signature); !ok {
+		return false
+	}
+	found := false
+	ast.Inspect(f.fd.Body, func(n ast.Node) bool {
+		as, ok := n.(*ast.AssignStmt)
+		if !ok || len(as.Lhs) != len(as.Rhs) {
+			return true
+		}
+		for i, l := range as.Lhs {
+			id, ok := l.(*ast.Ident)
+			if !ok {
+				continue
+			}
+			var o types.Object = f.p.info.Defs[id]
+			if o == nil {
+				o = f.p.info.Uses[id]
+			}
+			if o != types.Object(v) {
+				continue
+			}
+			if rid, ok := as.Rhs[i].(*ast.Ident); ok {
+				if fo, ok := f.p.info.Uses[rid].(*types.Func); ok {
+					if _, isW := f.u.worldFns[fo.Name()]; isW {
+						found = true
+					}
+				}
+			}
+		}
+		return true
+	})
+	return found
+}
+
+// sortSliceCall: sort.SliceStable(X, func(i, j int) bool { return E }) where E mentions the slice only as X[i] and X[j]:
+// the index comparator is an ELEMENT comparator (sa, sb); the sorted list is stored back into X.
+func (f *g2lFn) sortSliceCall(b *binds, e *ast.CallExpr) string {
+	lit, ok := e.Args[1].(*ast.FuncLit)
+	if !ok || len(lit.Body.List) != 1 || len(lit.Type.Params.List) == 0 {
+		f.bad(e, "sort.SliceStable needs func(i, j int) bool { return … }")
+	}
+	ret, ok := lit.Body.List[0].(*ast.ReturnStmt)
+	if !ok || len(ret.Results) != 1 {
+		f.bad(e, "sort.SliceStable comparator must be a single return")
+	}
+	var pi, pj types.Object
+	names := []*ast.Ident{}
+	for _, fld := range lit.Type.Params.List {
+		names = append(names, fld.Names...)
+	}
+	if len(names) != 2 {
+		f.bad(e, "sort.SliceStable comparator arity")
+	}
+	pi, pj = f.p.info.Defs[names[0]], f.p.info.Defs[names[1]]
+	xsrc := strings.Join(strings.Fields(show(e.Args[0])), "")
+	sl, ok := f.typeOf(e.Args[0]).Underlying().(*types.Slice)
+	if !ok {
+		f.bad(e, "sort.SliceStable of %s", f.typeOf(e.Args[0]))
+	}
+	mk := func(name string) *ast.Ident {
+		id := &ast.Ident{Name: name}
+		v := types.NewVar(lit.Pos(), f.p.pkg, name, sl.Elem())
+		f.p.info.Uses[id] = v
+		f.p.info.Types[id] = types.TypeAndValue{Type: sl.Elem()}
+		f.objNames[v] = name
+		return id
+	}
+	sa, sb := mk(f.fresh("sa")), mk(f.fresh("sb"))
+	bad := false
+	var subst func(x ast.Expr) ast.Expr
+	subst = func(x ast.Expr) ast.Expr {
+		switch t := x.(type) {
+		case *ast.IndexExpr:
+			if strings.Join(strings.Fields(show(t.X)), "") == xsrc {
+				if id, ok := t.Index.(*ast.Ident); ok {
+					switch f.p.info.Uses[id] {
+					case pi:
+						return sa
+					case pj:
+						return sb
+					}
+				}
+			}
+			bad = true
+			return x
+		case *ast.CallExpr:
+			c2 := *t
+			c2.Args = nil
+			for _, a := range t.Args {
+				c2.Args = append(c2.Args, subst(a))
+			}
+			if tv, ok := f.p.info.Types[t]; ok {
+				f.p.info.Types[&c2] = tv
+			}
+			return &c2
+		case *ast.Ident:
+			if o := f.p.info.Uses[t]; o == pi || o == pj {
+				bad = true
+			}
+			return x
+		case *ast.BinaryExpr:
+			b2 := *t
+			b2.X, b2.Y = subst(t.X), subst(t.Y)
+			if tv, ok := f.p.info.Types[t]; ok {
+				f.p.info.Types[&b2] = tv
+			}
+			return &b2
+		case *ast.UnaryExpr:
+			u2 := *t
+			u2.X = subst(t.X)
+			if tv, ok := f.p.info.Types[t]; ok {
+				f.p.info.Types[&u2] = tv
+			}
+			return &u2
+		case *ast.ParenExpr:
+			return subst(t.X)
+		case *ast.SelectorExpr:
+			if strings.Contains(strings.Join(strings.Fields(show(t)), ""), xsrc+"[") {
+				bad = true
+			}
+			return x
+		}
+		return x
+	}
+	body := subst(ret.Results[0])
+	if bad {
+		f.bad(e, "sort.SliceStable comparator uses the indices other than as %s[i] / %s[j]", xsrc, xsrc)
+	}
+	f.needWorld(e)
+	var cb binds
+	r := f.expr(&cb, body)
+	cmp := append(append([]string{}, cb.lines...), fmt.Sprintf("pure (%s, world)", r))
+	ea := f.leanType(sl.Elem(), e)
+	x := f.expr(b, e.Args[0])
+	t := f.bindM(b, fmt.Sprintf("sortStableW (fun (%s %s : %s) (world : %s) => (%s : M (Bool × %s))) %s world", f.name(sa), f.name(sb), ea, f.worldType, f.paren(cmp), f.worldType, x))
+	sorted := f.fresh("st")
+	b.add(fmt.Sprintf("let (%s, world) := %s", sorted, t))
+	b.noteRebound("world")
+	lines := []string{}
+	f.assignOne(&lines, e.Args[0], sorted, f.typeOf(e.Args[0]))
+	for _, l := range lines {
+		b.add(l)
+	}
+	return "()"
 }
